@@ -32,9 +32,9 @@ func TestMain(m *testing.M) {
 var ctx = context.Background()
 
 type env struct {
-	kind    string
-	store   func() appencryption.Metastore
-	suffix  string
+	kind   string
+	store  func() appencryption.Metastore
+	suffix string
 }
 
 func regions() []string { return []string{"us-west-2", "eu-central-1", "ap-southeast-2"} }
@@ -70,7 +70,7 @@ func drawEnv(t *rapid.T) env {
 	}
 }
 
-var atoms = []string{"a", "b", "ab", "_", "__", "IK", "SK", "_IK_", "_SK_", "é", "0", "A", " ", "-", "us-west-2", "part"}
+var atoms = []string{strings.Repeat("L", 250), strings.Repeat("L", 251), "a", "b", "ab", "_", "__", "IK", "SK", "_IK_", "_SK_", "é", "0", "A", "a", " ", "-", "us-west-2", "part"}
 
 func drawWord(t *rapid.T, label string, extra ...string) string {
 	pool := append(append([]string{}, atoms...), extra...)
